@@ -680,6 +680,13 @@ class VM:
                 v = self.read_place(fr, p[1][1])
                 if isinstance(v, SliceRef):
                     return Ref(v.ref.cell, v.ref.path + (v.start + i,))
+                from .strings import BStr
+                if isinstance(v, BStr):        # one byte of the &[u8] view of text (the bounds assert precedes it in the MIR)
+                    from .stdcheck import P as _P
+                    from .std_iter import drain
+                    bs = drain(self, _P(self, '<impl str>::bytes', v))
+                    if not 0 <= i < len(bs): raise PanicEdge('panic', f'index out of bounds: the len is {len(bs)} but the index is {i}', fr.fn.name)
+                    return Ref(Cell(bs[i]))
             r = self.place_ref(fr, p[1])
             return Ref(r.cell, r.path + (i,))
         raise Unmodelled('place ref ' + repr(p))
